@@ -969,10 +969,19 @@ def run_one(mn: str, ops: List[Tuple[Any, ...]], regs: Dict[str, int], peek: Cal
     else:
         raise Unmodelled(mn)
     # Self-modifying addressing: a write to BP/PX/PY while a multi-step instruction forms addresses from them.
-    if mn in COUNTED or mn in ("EX", "EXW", "EXP"):
+    # Block moves are inside the domain: every README MVL row that spells the loop out latches both addresses before
+    # it ("d<-(n), s<-[r3]. Loop I times: [d++]<-[s++]"; the (m),(n) rows abbreviate the same loop as "(m++) <- (n++)"),
+    # the rendered operand (BP+m) denotes ONE start address -- the one BP gives at instruction entry -- and "the range
+    # implied by I" is the run of I consecutive bytes from it.  A destination run that passes over EC/ED/EE therefore
+    # changes BP/PX/PY as data and nothing about the remaining addresses (sem_mvl works byte by byte from d0/s0).
+    # The exchange and arithmetic/decimal chains have no such row: still skipped.
+    if (mn in COUNTED and mn not in ("MVL", "MVLD")) or mn in ("EX", "EXW", "EXP"):
         uses_ptr = any(a in m.rd_addr for a in (A_BP, A_PX, A_PY))
         if uses_ptr and any(a in m.w for a in (A_BP, A_PX, A_PY)):
             raise Skip("instruction rewrites BP/PX/PY while addressing through them")
+    if mn in ("MVL", "MVLD") and any(a in m.w for a in (A_BP, A_PX, A_PY)):
+        m.labels.append("block:rewrites-BP/PX/PY" + ("-while-addressing-through-them"
+                        if any(a in m.rd_addr for a in (A_BP, A_PX, A_PY)) else ""))
     return m.finish()
 
 
